@@ -4,6 +4,7 @@ pub mod engine;
 pub mod vocab;
 pub mod c01;
 pub mod c02;
+pub mod c03;
 pub mod c05;
 pub mod c06;
 pub mod c07;
@@ -23,6 +24,7 @@ pub fn run_property(id: &str, ctx: &Ctx) -> bool {
     match id {
         "C01" => c01::run(ctx),
         "C02" => c02::run(ctx),
+        "C03" => c03::run(ctx),
         "C05" => c05::run(ctx),
         "C06" => c06::run(ctx),
         "C07" => c07::run(ctx),
@@ -41,6 +43,7 @@ pub fn replay_property(id: &str, w: &mut Worker, sub: &str, case: &serde_json::V
     match id {
         "C01" => c01::replay(w, sub, case),
         "C02" => c02::replay(w, sub, case),
+        "C03" => c03::replay(w, sub, case),
         "C05" => c05::replay(w, sub, case),
         "C06" => c06::replay(w, sub, case),
         "C07" => c07::replay(w, sub, case),
